@@ -816,3 +816,417 @@ Proof.
   - rewrite frev_rev. cbn in ET. rewrite <- ET. unfold flush, flushed. cbn [out txt]. destruct t'; reflexivity.
   - reflexivity.
 Qed.
+
+(* ------------------------------------------------------------------------------------------- *)
+(* complete: a rendered document is accepted and represented exactly *)
+Definition piece_events (ps : list piece) : list event := events (tokens_of ps) [root_name].
+
+Theorem parse_rendered ps : doc_ok ps -> short_lines (tokens_of ps) ->
+  parse (render ps) = Ok (run_events (piece_events ps)).
+Proof.
+  intros (HP & HA & HB) HS. destruct (lex_rendered ps HP HA) as [ET EC].
+  rewrite parse_accepts; [unfold doc_events, piece_events; rewrite ET; reflexivity|assumption|rewrite ET; assumption|rewrite ET; assumption].
+Qed.
+
+Theorem rendered_represented ps : doc_ok ps -> short_lines (tokens_of ps) -> no_clobber (piece_events ps) ->
+  exists t, parse (render ps) = Ok t /\ represents t (piece_events ps).
+Proof.
+  intros HD HS NC. exists (run_events (piece_events ps)). split; [apply parse_rendered; assumption|].
+  apply run_events_represents; [|assumption]. apply balanced_events_wf. apply HD.
+Qed.
+
+(* ------------------------------------------------------------------------------------------- *)
+(* the getters on a store that represents the events *)
+Lemma key_of_vec_snoc v k : key_of_vec (v ++ [k]) = k :: key_of_vec v.
+Proof. unfold key_of_vec. rewrite !frev_rev, rev_app_distr. reflexivity. Qed.
+
+Definition absent (evs : list event) (X : key) : Prop :=
+  ~ live evs X /\ forall K k, X = k :: K -> k <> [] -> assigns evs K k = [].
+
+Lemma absent_lookup s evs X : represents s evs -> absent evs X -> lookup s X = None.
+Proof.
+  intros R [H1 H2]. destruct (lookup s X) as [i|] eqn:L; [|reflexivity]. exfalso.
+  destruct (rep_only _ _ R _ _ L) as [H|(K & k & E & Hk & Ha)]; [exact (H1 H)|]. exact (Ha (H2 K k E Hk)).
+Qed.
+
+Section Getters.
+  Variable s : store.
+  Variable evs : list event.
+  Hypothesis R : represents s evs.
+  Variable p : bytes.
+  Variable v : list bytes.
+  Hypothesis Hp : analysis_path p = Ok v.
+
+  Lemma with_elem_path {A} (f : option (key * info) -> A) :
+    with_elem s p f = Ok (f (match lookup s (key_of_vec v) with Some i => Some (key_of_vec v, i) | None => None end)).
+  Proof. unfold with_elem, get_elem. rewrite Hp. reflexivity. Qed.
+
+  (* a domain: its lines in document order *)
+  Theorem lines_exact : live evs (key_of_vec v) -> get_domain_line s p = Ok (lines_of evs (key_of_vec v)).
+  Proof.
+    intros HL. destruct (rep_domain _ _ R _ HL) as (i & Li & _ & Hl).
+    unfold get_domain_line. rewrite with_elem_path, Li, frev_rev, Hl, rev_involutive. reflexivity.
+  Qed.
+
+  (* a key: its last written value, converted, or the default when the conversion fails *)
+  Theorem value_exact : forall v0 k, v = v0 ++ [k] -> k <> [] -> assigns evs (key_of_vec v0) k <> [] ->
+    let x := last (assigns evs (key_of_vec v0) k) [] in
+    (forall d, get_string_def s p d = Ok x) /\
+    (forall d, get_int_def s p d = Ok (match atoi x with Some z => z | None => d end)) /\
+    (forall d, get_int32_def s p d = Ok (match atoi32 x with Some z => z | None => d end)) /\
+    (forall d, get_bool_def s p d = Ok (match parse_bool x with Some b => b | None => d end)).
+  Proof.
+    intros v0 k Ev Hk Ha x. pose proof (rep_key _ _ R _ _ Hk Ha) as L. rewrite <- key_of_vec_snoc, <- Ev in L.
+    unfold get_string_def, get_int_def, get_int32_def, get_bool_def, typed. repeat split; intros d; rewrite with_elem_path, L; reflexivity.
+  Qed.
+
+  (* nothing there: the defaults and empty listings *)
+  Theorem absent_defaults : absent evs (key_of_vec v) ->
+    (forall d, get_string_def s p d = Ok d) /\ (forall d, get_int_def s p d = Ok d) /\
+    (forall d, get_int32_def s p d = Ok d) /\ (forall d, get_bool_def s p d = Ok d) /\
+    get_domain s p = Ok [] /\ get_domain_key s p = Ok [] /\ get_domain_line s p = Ok [] /\ get_map s p = Ok [].
+  Proof.
+    intros HA. pose proof (absent_lookup _ _ _ R HA) as L.
+    unfold get_string_def, get_int_def, get_int32_def, get_bool_def, typed, get_domain, get_domain_key, get_domain_line, get_map.
+    repeat split; intros; rewrite with_elem_path, L; reflexivity.
+  Qed.
+End Getters.
+
+(* listings *)
+Lemma child_name_some K e n : child_name K e = Some n <-> fst e = n :: K.
+Proof.
+  unfold child_name. destruct (fst e) as [|m K']; [split; discriminate|].
+  destruct (key_eqb K' K) eqn:E.
+  - apply key_eqb_eq in E. subst. split; [intros H; inversion H; reflexivity|intros H; inversion H; reflexivity].
+  - split; [discriminate|]. intros H. inversion H; subst. rewrite key_eqb_refl in E. discriminate.
+Qed.
+
+Lemma children_in kd : forall s K n val,
+  In (n, val) (children kd s K) <-> exists i, In (n :: K, i) s /\ is_kind kd i = true /\ val = ivalue i.
+Proof.
+  induction s as [|e r IH]; intros K n val; cbn [children].
+  - split; [intros []|intros (i & [] & _)].
+  - destruct (child_name K e) as [m|] eqn:C.
+    + apply child_name_some in C. destruct e as [k i0]. cbn [fst snd] in *. subst k.
+      destruct (is_kind kd i0) eqn:Kd.
+      * cbn [In]. rewrite IH. split.
+        -- intros [E|(i & Hin & H)]; [inversion E; subst; exists i0; auto|exists i; auto].
+        -- intros (i & [E|Hin] & Hk & Hv); [inversion E; subst; left; reflexivity|right; exists i; auto].
+      * rewrite IH. split.
+        -- intros (i & Hin & H). exists i. cbn. auto.
+        -- intros (i & [E|Hin] & Hk & Hv); [inversion E; subst; rewrite Kd in Hk; discriminate|exists i; auto].
+    + rewrite IH. split.
+      * intros (i & Hin & H). exists i. cbn. auto.
+      * intros (i & [E|Hin] & Hk & Hv); [|exists i; auto].
+        subst e. cbn in C. rewrite key_eqb_refl in C. discriminate.
+Qed.
+
+Lemma children_nodup kd : forall s K, NoDup (map fst s) -> NoDup (map fst (children kd s K)).
+Proof.
+  induction s as [|e r IH]; intros K ND; cbn [children]; [constructor|].
+  inversion ND as [|? ? Hn ND']; subst.
+  destruct (child_name K e) as [m|] eqn:C; [|apply IH; assumption].
+  destruct (is_kind kd (snd e)); [|apply IH; assumption].
+  cbn [map fst]. constructor; [|apply IH; assumption].
+  intros Hin. apply in_map_iff in Hin. destruct Hin as ([m' val] & E & Hin). cbn in E. subst m'.
+  apply children_in in Hin. destruct Hin as (i & Hin & _). apply child_name_some in C.
+  apply Hn. rewrite C. apply (in_map fst) in Hin. exact Hin.
+Qed.
+
+Section Listings.
+  Variable s : store.
+  Variable evs : list event.
+  Hypothesis R : represents s evs.
+  Variable K : key.
+
+  Lemma children_lookup kd n val :
+    In (n, val) (children kd s K) <-> exists i, lookup s (n :: K) = Some i /\ is_kind kd i = true /\ val = ivalue i.
+  Proof.
+    rewrite children_in. split; intros (i & H & H'); exists i; (split; [|exact H']).
+    - apply in_lookup; [apply (rep_nodup _ _ R)|assumption].
+    - apply lookup_in. assumption.
+  Qed.
+
+  Theorem subdomains_exact : forall n, In n (map fst (children KNode s K)) <-> live evs (n :: K).
+  Proof.
+    intros n. rewrite in_map_iff. split.
+    - intros ([n' val] & E & Hin). cbn in E. subst n'. apply children_lookup in Hin. destruct Hin as (i & L & Kd & _).
+      destruct (rep_only _ _ R _ _ L) as [H|(K' & k & E & Hk & Ha)]; [exact H|].
+      injection E as E1 E2. subst k K'. pose proof (rep_key _ _ R _ _ Hk Ha) as L2. unfold key, bytes in *. rewrite L2 in L. inversion L; subst. discriminate.
+    - intros H. destruct (rep_domain _ _ R (n :: K) H) as (i & L & Kd & _).
+      exists (n, ivalue i). split; [reflexivity|]. apply children_lookup. exists i. unfold is_kind. rewrite Kd. auto.
+  Qed.
+
+  Theorem keys_exact : forall k val, In (k, val) (children KLeaf s K) <->
+    k <> [] /\ assigns evs K k <> [] /\ val = last (assigns evs K k) [].
+  Proof.
+    intros k val. rewrite children_lookup. split.
+    - intros (i & L & Kd & ->). destruct (rep_only _ _ R _ _ L) as [H|(K' & k' & E & Hk & Ha)].
+      + destruct (rep_domain _ _ R _ H) as (i' & L' & Kd' & _). unfold key, bytes in *. rewrite L in L'. inversion L'; subst. unfold is_kind in Kd. rewrite Kd' in Kd. discriminate.
+      + injection E as E1 E2. subst k' K'. pose proof (rep_key _ _ R _ _ Hk Ha) as L2. unfold key, bytes in *. rewrite L2 in L. inversion L; subst. auto.
+    - intros (Hk & Ha & ->). exists (new_leaf (last (assigns evs K k) [])). split; [apply (rep_key _ _ R); assumption|]. auto.
+  Qed.
+
+  Theorem listings_nodup : NoDup (map fst (children KNode s K)) /\ NoDup (map fst (children KLeaf s K)).
+  Proof. split; apply children_nodup; apply (rep_nodup _ _ R). Qed.
+End Listings.
+
+Theorem listing_getters : forall s p v i, analysis_path p = Ok v -> lookup s (key_of_vec v) = Some i ->
+  get_domain s p = Ok (map fst (children KNode s (key_of_vec v))) /\
+  get_domain_key s p = Ok (map fst (children KLeaf s (key_of_vec v))) /\
+  get_map s p = Ok (children KLeaf s (key_of_vec v)).
+Proof.
+  intros s p v i Hp L. unfold get_domain, get_domain_key, get_map.
+  rewrite !(with_elem_path s p v Hp), L. auto.
+Qed.
+
+(* ------------------------------------------------------------------------------------------- *)
+(* paths: /a/b and /a/b<key> are analysed into their components *)
+Lemma split_on_aux_nosep sep : forall s cur, ~ In sep s -> split_on_aux sep cur s = [rev cur ++ s].
+Proof.
+  induction s as [|c r IH]; intros cur H; cbn [split_on_aux].
+  - rewrite frev_rev, app_nil_r. reflexivity.
+  - destruct (c =? sep) eqn:E; [exfalso; apply H; left; apply N.eqb_eq; assumption|].
+    rewrite IH by (intros Hin; apply H; right; assumption). cbn [rev]. rewrite <- app_assoc. reflexivity.
+Qed.
+Lemma split_on_aux_sep sep : forall a cur b, ~ In sep a ->
+  split_on_aux sep cur (a ++ sep :: b) = (rev cur ++ a) :: split_on_aux sep [] b.
+Proof.
+  induction a as [|c r IH]; intros cur b H; cbn [app split_on_aux].
+  - rewrite N.eqb_refl, frev_rev, app_nil_r. reflexivity.
+  - destruct (c =? sep) eqn:E; [exfalso; apply H; left; apply N.eqb_eq; assumption|].
+    rewrite IH by (intros Hin; apply H; right; assumption). cbn [rev]. rewrite <- app_assoc. reflexivity.
+Qed.
+Lemma split_on_nosep sep s : ~ In sep s -> split_on sep s = [s].
+Proof. intros H. unfold split_on. rewrite split_on_aux_nosep by assumption. reflexivity. Qed.
+Lemma split_on_sep sep a b : ~ In sep a -> split_on sep (a ++ sep :: b) = a :: split_on sep b.
+Proof. intros H. unfold split_on. rewrite split_on_aux_sep by assumption. reflexivity. Qed.
+
+Lemma split_path_rest tl : ~ In c_slash tl -> forall l n,
+  ~ In c_slash n -> Forall (fun m => ~ In c_slash m) l ->
+  split_on c_slash (n ++ concat (map (fun m => c_slash :: m) l) ++ tl) = removelast (n :: l) ++ [last (n :: l) [] ++ tl].
+Proof.
+  intros Ht. induction l as [|m l IH]; intros n Hn Hl.
+  - cbn [map concat app]. rewrite split_on_nosep; [reflexivity|]. intros Hin. apply in_app_or in Hin. tauto.
+  - inversion Hl as [|? ? Hm Hl']; subst. cbn [map concat].
+    replace (n ++ ((c_slash :: m) ++ concat (map (fun m0 => c_slash :: m0) l)) ++ tl)
+      with (n ++ c_slash :: (m ++ concat (map (fun m0 => c_slash :: m0) l) ++ tl)) by (cbn [app]; rewrite <- app_assoc; reflexivity).
+    rewrite split_on_sep by assumption. rewrite (IH m Hm Hl'). reflexivity.
+Qed.
+
+Lemma trim_left_c_head ch c r : c <> ch -> trim_left_c ch (c :: r) = c :: r.
+Proof. intros H. cbn. destruct (c =? ch) eqn:E; [apply N.eqb_eq in E; contradiction|reflexivity]. Qed.
+
+Lemma trim_c_key k : (exists c r, k = c :: r /\ c <> c_gt) -> (exists r c, k = r ++ [c] /\ c <> c_gt) ->
+  trim_c c_gt (k ++ [c_gt]) = k.
+Proof.
+  intros H1 (r' & c' & E2 & H2). unfold trim_c.
+  assert (S1 : trim_left_c c_gt (k ++ [c_gt]) = k ++ [c_gt]).
+  { destruct H1 as (c & r & -> & H1). cbn [app]. apply trim_left_c_head. assumption. }
+  rewrite S1, !frev_rev, rev_app_distr. cbn [rev app trim_left_c]. rewrite N.eqb_refl.
+  assert (S2 : trim_left_c c_gt (rev k) = rev k).
+  { rewrite E2, rev_app_distr. cbn [rev app]. apply trim_left_c_head. assumption. }
+  rewrite S2. apply rev_involutive.
+Qed.
+
+Lemma filter_nonempty_names l : Forall path_name l -> filter nonempty l = l.
+Proof.
+  induction 1 as [|n l Hn Hl IH]; [reflexivity|]. cbn. destruct n; [destruct Hn as [Hn _]; contradiction|]. cbn. rewrite IH. reflexivity.
+Qed.
+
+Theorem analysis_path_domain v : Forall path_name v -> analysis_path (path_string v None) = Ok v.
+Proof.
+  intros HV. unfold path_string. rewrite app_nil_r. destruct v as [|n l]; [reflexivity|].
+  inversion HV as [|? ? Hn Hl]; subst.
+  assert (Hl' : Forall (fun m => ~ In c_slash m) l) by (eapply Forall_impl; [|exact Hl]; intros m Hm; apply Hm).
+  pose proof (split_path_rest [] (fun H => H) l n (proj1 (proj2 Hn)) Hl') as S. rewrite !app_nil_r in S.
+  unfold analysis_path. cbn [map concat app]. change (c_slash :: n ++ concat (map (fun m => c_slash :: m) l)) with ([] ++ c_slash :: (n ++ concat (map (fun m => c_slash :: m) l))).
+  rewrite split_on_sep by (intros []). rewrite S, frev_rev. cbn [rev]. rewrite rev_app_distr. cbn [rev app].
+  assert (HL : path_name (last (n :: l) [])).
+  { destruct (exists_last (l:=n :: l)) as (l0 & x & E); [discriminate|]. rewrite E, last_last.
+    rewrite E in HV. apply Forall_app in HV. destruct HV as [_ HV]. inversion HV; assumption. }
+  rewrite split_on_nosep by apply HL. rewrite frev_rev, rev_app_distr, rev_involutive. cbn [rev app].
+  f_equal. cbn [filter nonempty]. rewrite <- app_removelast_last by discriminate. apply filter_nonempty_names. assumption.
+Qed.
+
+Theorem analysis_path_key v k : Forall path_name v -> path_key k -> analysis_path (path_string v (Some k)) = Ok (v ++ [k]).
+Proof.
+  intros HV (K1 & K2 & K3 & K4). unfold path_string.
+  assert (Ht : ~ In c_slash (c_lt :: k ++ [c_gt])).
+  { intros [H|H]; [discriminate|]. apply in_app_or in H. destruct H as [H|[H|[]]]; [contradiction|discriminate]. }
+  assert (Hgt : ~ In c_lt (k ++ [c_gt])).
+  { intros H. apply in_app_or in H. destruct H as [H|[H|[]]]; [contradiction|discriminate]. }
+  assert (Hk : nonempty k = true) by (destruct K3 as (c & r & -> & _); reflexivity).
+  destruct v as [|n l].
+  - cbn [map concat app]. unfold analysis_path. rewrite split_on_nosep by assumption. cbn [frev rev_append].
+    change (c_lt :: k ++ [c_gt]) with ([] ++ c_lt :: (k ++ [c_gt])). rewrite split_on_sep by (intros []).
+    rewrite split_on_nosep by assumption. cbn [app]. rewrite trim_c_key by assumption. cbn [filter nonempty]. rewrite Hk. reflexivity.
+  - inversion HV as [|? ? Hn Hl]; subst.
+    assert (Hl' : Forall (fun m => ~ In c_slash m) l) by (eapply Forall_impl; [|exact Hl]; intros m Hm; apply Hm).
+    pose proof (split_path_rest _ Ht l n (proj1 (proj2 Hn)) Hl') as S.
+    unfold analysis_path. cbn [map concat]. rewrite <- app_assoc.
+    change ((c_slash :: n) ++ concat (map (fun m => c_slash :: m) l) ++ c_lt :: k ++ [c_gt])
+      with ([] ++ c_slash :: (n ++ concat (map (fun m => c_slash :: m) l) ++ c_lt :: k ++ [c_gt])).
+    rewrite split_on_sep by (intros []). rewrite S, frev_rev. cbn [rev]. rewrite rev_app_distr. cbn [rev app].
+    assert (HL : path_name (last (n :: l) [])).
+    { destruct (exists_last (l:=n :: l)) as (l0 & x & E); [discriminate|]. rewrite E, last_last.
+      rewrite E in HV. apply Forall_app in HV. destruct HV as [_ HV]. inversion HV; assumption. }
+    rewrite split_on_sep by apply HL. rewrite split_on_nosep by assumption.
+    rewrite frev_rev, rev_app_distr, rev_involutive. cbn [rev app]. rewrite trim_c_key by assumption.
+    f_equal. cbn [filter nonempty].
+    assert (E : removelast (n :: l) ++ [last (n :: l) []; k] = (n :: l) ++ [k]).
+    { transitivity ((removelast (n :: l) ++ [last (n :: l) []]) ++ [k]); [rewrite <- app_assoc; reflexivity|].
+      f_equal. symmetry. apply app_removelast_last. discriminate. }
+    unfold bytes in *. rewrite E, filter_app, filter_nonempty_names by assumption. cbn [filter]. rewrite Hk. reflexivity.
+Qed.
+
+(* ------------------------------------------------------------------------------------------- *)
+(* lines: how a key = value line, a comment and a blank line are read *)
+Lemma conf_blank_facts c : is_conf_blank c = true -> c <> c_eq /\ c <> c_cr /\ c <> c_hash.
+Proof. unfold is_conf_blank, c_conf_blanks. cbn [existsb]. chars. lia. Qed.
+Lemma conf_nonblank_consts : is_conf_blank c_eq = false /\ is_conf_blank c_hash = false.
+Proof. split; reflexivity. Qed.
+
+Lemma trim_left_blanks w x : Forall (fun c => is_conf_blank c = true) w -> trim_left (w ++ x) = trim_left x.
+Proof. induction 1 as [|c w Hc Hw IH]; [reflexivity|]. cbn [app trim_left]. rewrite Hc. exact IH. Qed.
+Lemma trim_left_head c r : is_conf_blank c = false -> trim_left (c :: r) = c :: r.
+Proof. intros H. cbn [trim_left]. rewrite H. reflexivity. Qed.
+Lemma trim_left_snoc c : is_conf_blank c = false -> forall x, exists y, trim_left (x ++ [c]) = y ++ [c].
+Proof.
+  intros H. induction x as [|a x IH]; cbn [app trim_left].
+  - rewrite H. exists []. reflexivity.
+  - destruct (is_conf_blank a); [exact IH|]. exists (a :: x). reflexivity.
+Qed.
+Lemma blanks_conf w : blanks w -> Forall (fun c => is_conf_blank c = true) w.
+Proof. intros H. eapply Forall_impl; [|exact H]. intros c Hc. apply Hc. Qed.
+Lemma Forall_rev' {A} (P : A -> Prop) l : Forall P l -> Forall P (rev l).
+Proof. intros H. apply Forall_forall. intros x Hx. apply in_rev in Hx. rewrite Forall_forall in H. auto. Qed.
+
+Lemma trim_edges w0 m w1 : blanks w0 -> blanks w1 -> edges_ok m -> trim (w0 ++ m ++ w1) = m.
+Proof.
+  intros H0 H1 [(c & r & E1 & Hc) (r' & c' & E2 & Hc')]. unfold trim.
+  rewrite trim_left_blanks by (apply blanks_conf; assumption).
+  rewrite E1 at 1. cbn [app]. rewrite trim_left_head by assumption.
+  change (c :: r ++ w1) with ((c :: r) ++ w1). rewrite <- E1. rewrite !frev_rev, rev_app_distr.
+  rewrite trim_left_blanks by (apply Forall_rev'; apply blanks_conf; assumption).
+  rewrite E2, rev_app_distr. cbn [rev app]. rewrite trim_left_head by assumption.
+  change (c' :: rev r') with (rev [c'] ++ rev r'). rewrite <- rev_app_distr. apply rev_involutive.
+Qed.
+
+Lemma trim_blanks w : blanks w -> trim w = [].
+Proof.
+  intros H. unfold trim. rewrite <- (app_nil_r w), trim_left_blanks by (apply blanks_conf; assumption). reflexivity.
+Qed.
+
+Lemma trim_head w c r : blanks w -> is_conf_blank c = false -> exists y, trim (w ++ c :: r) = c :: y.
+Proof.
+  intros Hw Hc. unfold trim. rewrite trim_left_blanks by (apply blanks_conf; assumption).
+  rewrite trim_left_head by assumption. rewrite !frev_rev. cbn [rev].
+  destruct (trim_left_snoc c Hc (rev r)) as [y ->]. exists (rev y). rewrite rev_app_distr. reflexivity.
+Qed.
+
+Lemma drop_cr_nocr l : ~ In c_cr l -> drop_cr l = l.
+Proof.
+  intros H. unfold drop_cr. rewrite frev_rev. destruct (rev l) as [|c r] eqn:E; [reflexivity|].
+  destruct (c =? c_cr) eqn:Ec; [|reflexivity]. exfalso. apply H. apply N.eqb_eq in Ec. subst c.
+  apply in_rev. rewrite E. left. reflexivity.
+Qed.
+
+Lemma drop_cr_form a c r : c <> c_cr -> exists r', drop_cr (a ++ c :: r) = a ++ c :: r'.
+Proof.
+  intros Hc. unfold drop_cr. rewrite frev_rev, rev_app_distr. cbn [rev]. rewrite <- app_assoc. cbn [app].
+  destruct (rev r) as [|z zs] eqn:E; cbn [app].
+  - destruct (c =? c_cr) eqn:Ec; [apply N.eqb_eq in Ec; contradiction|]. exists r. reflexivity.
+  - destruct (z =? c_cr); [|exists r; reflexivity].
+    exists (rev zs). rewrite frev_rev, rev_app_distr. cbn [rev]. rewrite rev_involutive, <- app_assoc. reflexivity.
+Qed.
+
+Lemma cut_eq_app : forall a b, ~ In c_eq a -> cut_eq (a ++ c_eq :: b) = (a, Some b).
+Proof.
+  induction a as [|c a IH]; intros b H; cbn [app cut_eq].
+  - rewrite N.eqb_refl. reflexivity.
+  - destruct (c =? c_eq) eqn:E; [exfalso; apply H; left; apply N.eqb_eq; assumption|].
+    rewrite IH by (intros Hin; apply H; right; assumption). reflexivity.
+Qed.
+
+Lemma blanks_notin w x : blanks w -> (is_conf_blank x = false \/ x = c_nl) -> ~ In x w.
+Proof.
+  intros Hw Hx Hin. unfold blanks in Hw. rewrite Forall_forall in Hw. destruct (Hw _ Hin) as [H1 H2]. destruct Hx as [Hx| ->]; [congruence|contradiction].
+Qed.
+
+Theorem kv_line_read w0 k w1 w2 v w3 :
+  blanks w0 -> blanks w1 -> blanks w2 -> blanks w3 -> clean_key k -> clean_value v ->
+  content_line (kv_line w0 k w1 w2 v w3) = Some (kv_text k w1 w2 v) /\ line_kv (kv_text k w1 w2 v) = (k, v)
+  /\ ~ In c_nl (kv_line w0 k w1 w2 v w3).
+Proof.
+  intros B0 B1 B2 B3 (KE & Keq & Knl & Kcr & Kh) HV.
+  assert (NB : forall w x, blanks w -> x = c_eq \/ x = c_cr \/ x = c_nl -> ~ In x w).
+  { intros w x Hw Hx Hin. unfold blanks in Hw. rewrite Forall_forall in Hw. destruct (Hw _ Hin) as [H1 H2].
+    destruct (conf_blank_facts _ H1) as (F1 & F2 & F3). destruct Hx as [->|[->| ->]]; contradiction. }
+  assert (Vnl : ~ In c_nl v /\ ~ In c_cr v) by (destruct HV as [->|(_ & H1 & H2)]; [split; intros []|tauto]).
+  assert (HM : edges_ok (kv_text k w1 w2 v)).
+  { destruct KE as [(c & r & E1 & Hc) _]. unfold kv_text. split.
+    - exists c, (r ++ w1 ++ [c_eq] ++ match v with [] => [] | _ => w2 ++ v end). rewrite E1. split; [reflexivity|assumption].
+    - destruct HV as [->|([_ (r' & c' & E2 & Hc')] & _)].
+      + exists (k ++ w1), c_eq. split; [rewrite <- app_assoc; reflexivity|reflexivity].
+      + exists (k ++ w1 ++ [c_eq] ++ w2 ++ r'), c'. split; [|assumption].
+        rewrite E2. destruct (r' ++ [c']) eqn:E; [destruct r'; discriminate|]. rewrite <- E. rewrite <- !app_assoc. reflexivity. }
+  assert (SEG : exists w', blanks w' /\ kv_line w0 k w1 w2 v w3 = w0 ++ kv_text k w1 w2 v ++ w').
+  { unfold kv_line, kv_text. destruct v as [|c v'].
+    - exists (w2 ++ w3). split; [apply Forall_app; split; assumption|]. rewrite <- !app_assoc. reflexivity.
+    - exists w3. split; [assumption|]. rewrite <- !app_assoc. reflexivity. }
+  assert (NL : forall x, x = c_nl \/ x = c_cr -> ~ In x (kv_line w0 k w1 w2 v w3)).
+  { intros x Hx Hin. unfold kv_line in Hin. repeat (apply in_app_or in Hin; destruct Hin as [Hin|Hin]).
+    - apply (NB w0 x); tauto.
+    - destruct Hx as [-> | ->]; contradiction.
+    - apply (NB w1 x); tauto.
+    - destruct Hin as [<-|[]]. destruct Hx; discriminate.
+    - apply (NB w2 x); tauto.
+    - destruct Hx as [-> | ->]; tauto.
+    - apply (NB w3 x); tauto. }
+  split; [|split].
+  - unfold content_line. rewrite drop_cr_nocr by (apply NL; auto).
+    destruct SEG as (w' & Bw' & ->). rewrite trim_edges by assumption.
+    destruct KE as [(c & r & E1 & Hc) _]. unfold kv_text at 1. rewrite E1 at 1. cbn [app].
+    rewrite E1 in Kh. cbn in Kh. destruct (c =? c_hash) eqn:E; [apply N.eqb_eq in E; contradiction|reflexivity].
+  - unfold line_kv, kv_text. rewrite app_assoc. cbn [app].
+    rewrite cut_eq_app.
+    + f_equal.
+      * rewrite <- (app_nil_l (k ++ w1)). apply trim_edges; [constructor|assumption|assumption].
+      * destruct HV as [->|(VE & _)]; [reflexivity|]. destruct v as [|c v']; [destruct VE as [(? & ? & E & _) _]; discriminate|].
+        rewrite <- (app_nil_r (w2 ++ c :: v')), <- app_assoc. apply trim_edges; [assumption|constructor|assumption].
+    + intros Hin. apply in_app_or in Hin. destruct Hin as [Hin|Hin]; [contradiction|]. apply (NB w1 c_eq); auto.
+  - apply NL. auto.
+Qed.
+
+Theorem comment_line_read w rest : blanks w -> content_line (w ++ c_hash :: rest) = None.
+Proof.
+  intros Bw. unfold content_line. destruct (drop_cr_form w c_hash rest) as [r' ->]; [discriminate|].
+  destruct (trim_head w c_hash r' Bw) as [y ->]; reflexivity.
+Qed.
+
+Theorem blank_line_read w : blanks w -> content_line w = None.
+Proof.
+  intros Bw. unfold content_line. rewrite drop_cr_nocr.
+  - rewrite trim_blanks by assumption. reflexivity.
+  - intros Hin. unfold blanks in Bw. rewrite Forall_forall in Bw. destruct (Bw _ Hin) as [H _]. apply conf_blank_facts in H. tauto.
+Qed.
+
+(* a text run made of newline-terminated lines is read line by line *)
+Lemma split_lines_aux_line : forall l cur rest, ~ In c_nl l ->
+  split_lines_aux cur (l ++ c_nl :: rest) = (rev cur ++ l) :: split_lines_aux [] rest.
+Proof.
+  induction l as [|c l IH]; intros cur rest H; cbn [app split_lines_aux].
+  - rewrite N.eqb_refl, frev_rev, app_nil_r. reflexivity.
+  - destruct (c =? c_nl) eqn:E; [exfalso; apply H; left; apply N.eqb_eq; assumption|].
+    rewrite IH by (intros Hin; apply H; right; assumption). cbn [rev]. rewrite <- app_assoc. reflexivity.
+Qed.
+
+Theorem split_lines_join ls : Forall (fun l => ~ In c_nl l) ls -> split_lines (join_lines ls) = ls.
+Proof.
+  unfold split_lines, join_lines. induction 1 as [|l ls Hl Hls IH]; [reflexivity|].
+  cbn [map concat]. rewrite <- app_assoc. cbn [app]. rewrite split_lines_aux_line by assumption. rewrite IH. reflexivity.
+Qed.
+
+Theorem content_lines_join ls : Forall (fun l => ~ In c_nl l) ls -> content_lines (join_lines ls) = flat_map line_content ls.
+Proof. intros H. unfold content_lines. rewrite split_lines_join by assumption. reflexivity. Qed.
